@@ -786,11 +786,12 @@ fn stream_once(hdr: Option<&[u8]>, len: usize) -> Result<X, String> {
 
 pub const PATH_BODY: &[u8] = b"0123456789";
 
-/// default host `localhost` + `b.example` (alias `alias.example`), both: `Extensions::new()` + one handler for
+/// (default) host `localhost` + `b.example` (alias `alias.example`), both: `Extensions::new()` + one handler for
 /// every path that reads the request body (64 KiB limit) and answers the 10-byte page; no response cache.
-fn path_descriptor() -> Arc<PortDescriptor> {
+fn path_descriptor(no_default: bool) -> Arc<PortDescriptor> {
     static D: OnceLock<Arc<PortDescriptor>> = OnceLock::new();
-    D.get_or_init(|| {
+    static N: OnceLock<Arc<PortDescriptor>> = OnceLock::new();
+    (if no_default { &N } else { &D }).get_or_init(|| {
         fixture_files();
         let dir = fixture_dir();
         let mk = |name: &'static str| {
@@ -812,21 +813,25 @@ fn path_descriptor() -> Arc<PortDescriptor> {
         };
         let mut other = mk("b.example");
         other.add_alternative_name("alias.example");
-        let coll = HostCollection::builder().default(mk("localhost")).insert(other).build();
+        let coll = if no_default {
+            HostCollection::builder().insert(mk("localhost")).insert(other).build()
+        } else {
+            HostCollection::builder().default(mk("localhost")).insert(other).build()
+        };
         Arc::new(PortDescriptor::unsecure(8080, coll))
     })
     .clone()
 }
 
-/// input: (L checked (B stream) (L segment..)) -> outcome class
+/// input: (L checked (B stream) (L segment..) no_default) -> outcome class; `no_default`: the collection has no default host
 ///   Ok (L (N 0) (N e))?  no: (L (N 0) class), class = (L (N 0)) closed | (L (N 409)) | (L (N 400)) | (L (N 403)) |
 ///   (L (N 204)) | (L (N 416)) | (L (N 1) status content-length (L [content-range]) body)
 fn c02_path(x: &X) -> X {
     let l = match x.as_l() {
-        Some(l) if l.len() == 3 => l,
+        Some(l) if l.len() == 4 => l,
         _ => return X::bad(),
     };
-    let (Some(data), Some(segs)) = (l[1].as_b(), l[2].as_l()) else { return X::bad() };
+    let (Some(data), Some(segs), Some(no_default)) = (l[1].as_b(), l[2].as_l(), l[3].as_bool()) else { return X::bad() };
     let mut chunks = Vec::new();
     for s in segs {
         match s.as_n() {
@@ -841,7 +846,7 @@ fn c02_path(x: &X) -> X {
         let chunks = chunks.clone();
         let before = PANICS.load(Ordering::SeqCst);
         let r = rt().block_on(async move {
-            let (mut client, task) = connect(path_descriptor()).await?;
+            let (mut client, task) = connect(path_descriptor(no_default)).await?;
             let got = talk(&mut client, &data, chunks, true).await;
             drop(client);
             match tokio::time::timeout(Duration::from_secs(30), task).await {
